@@ -32,8 +32,9 @@ N_SETS = {"quick": 60, "thorough": 1200}
 RULE = (
     "Sets of 2..6 operations {get, multiget, getnext, set to a private OID, walk, bulkwalk, "
     "table} started concurrently as tasks on one event loop, on one shared client (v2c; v3 "
-    "authPriv primed; v3 authPriv FRESH, i.e. concurrent first use) or on two clients with "
-    "different v3 users. Every request is parked at the sender seam and a scheduler answers "
+    "authPriv primed; v3 authPriv FRESH, i.e. concurrent first use; v3 primed with the device "
+    "REBOOTING while requests are in flight) or on two clients (different v3 users on one "
+    "device; the same user on two devices with different engine ids). Every request is parked at the sender seam and a scheduler answers "
     "pending requests in a chosen order: all orders are enumerated depth-first for sets whose "
     "schedule tree has <= MAX_ENUM leaves (quick 400, thorough 3000), otherwise sampled "
     "uniformly at each decision. Oracle: each operation's result == its solo result on an "
@@ -96,7 +97,7 @@ class Parker:
 
     async def __call__(self, endpoint, packet, timeout=None, retries=None, loop=None):
         fut = asyncio.get_running_loop().create_future()
-        self.pending.append((OPVAR.get(), bytes(packet), fut))
+        self.pending.append((OPVAR.get(), bytes(packet), fut, str(endpoint.ip)))
         return await fut
 
 
@@ -114,12 +115,18 @@ async def run_schedule(mode, ops, prefix, rng, events):
     # by one second on every read, so that concurrent operations carry different
     # request ids (state shared between operations becomes observable)
     agent = agent_mod.Agent(DB, users=users, clock=rig.env.Clock())
+    agents = {"192.0.2.1": agent, "192.0.2.2": agent}
     if mode == "v2c":
         clients = [Client("192.0.2.1", rig.credentials_for("v2c"), sender=parker)]
     else:
         clients = [Client("192.0.2.1", rig.credentials_for("v3-sha1-priv"), sender=parker)]
         if mode == "v3-two-clients":
             clients.append(Client("192.0.2.2", V3("second", Auth(b"second-auth-pw", "md5"), Priv(b"second-priv-pw", "vfstream8")), sender=parker))
+        if mode == "v3-two-engines":
+            # two devices (different engine ids) that know the same user, one client each
+            agent_b = agent_mod.Agent(DB, users=users, clock=rig.env.Clock(), engine_id=bytes.fromhex("80001f8804") + b"vf-agent-B", boots=7)
+            agents["192.0.2.2"] = agent_b
+            clients.append(Client("192.0.2.2", rig.credentials_for("v3-sha1-priv"), sender=parker))
     results = {}
 
     async def wrapper(i, kind, client):
@@ -133,7 +140,7 @@ async def run_schedule(mode, ops, prefix, rng, events):
         for _ in range(6):
             await asyncio.sleep(0)
 
-    if mode == "v3-primed":
+    if mode in ("v3-primed", "v3-primed-reboot"):
         OPVAR.set("prime")
         t = asyncio.ensure_future(clients[0].get(OID(BASE + (1, 1, 0))))
         while not t.done():
@@ -141,8 +148,8 @@ async def run_schedule(mode, ops, prefix, rng, events):
             if not parker.pending and not t.done():
                 raise rig.WouldBlock("prime blocked")
             while parker.pending:
-                _, pkt, fut = parker.pending.pop(0)
-                fut.set_result(agent.handle(pkt))
+                _, pkt, fut, ip = parker.pending.pop(0)
+                fut.set_result(agents[ip].handle(pkt))
         t.result()
         agent.requests.clear()
     tasks = []
@@ -152,6 +159,7 @@ async def run_schedule(mode, ops, prefix, rng, events):
     trace = []
     order = []
     step = 0
+    reboot_at = len(ops) // 2 if mode == "v3-primed-reboot" else -1
     while True:
         await settle()
         if all(t.done() for t in tasks):
@@ -168,9 +176,13 @@ async def run_schedule(mode, ops, prefix, rng, events):
             choice = 0
         choice = min(choice, n - 1)
         trace.append((choice, n))
-        op_id, pkt, fut = parker.pending.pop(choice)
+        if mode == "v3-primed-reboot" and step == reboot_at:
+            # the device reboots while requests are in flight: every one of them gets an
+            # authentic notInTimeWindow report and has to re-synchronise on its own
+            agent.reboot()
+        op_id, pkt, fut, ip = parker.pending.pop(choice)
         order.append(op_id)
-        resp = agent.handle(pkt)
+        resp = agents[ip].handle(pkt)
         if resp is None:
             fut.set_exception(rig.Timeout("no reply"))
         else:
@@ -178,6 +190,8 @@ async def run_schedule(mode, ops, prefix, rng, events):
         step += 1
         if step > 400:
             raise rig.BudgetExceeded("schedule too long")
+    if mode == "v3-two-engines":
+        agent.counters.update(agents["192.0.2.2"].counters)
     return results, trace, order, agent, clients
 
 
@@ -233,7 +247,11 @@ def judge(R, case, mode, ops, results, order, agent, clients, events):
     if events:
         R.violation(dict(case, order=order), "event-loop hygiene: %r" % events[:3], None)
         return False
-    bad = {k: v for k, v in agent.counters.items() if k in ("wrong_digest", "unknown_user", "decrypt_error", "unsupported_level", "not_in_window", "bad_community", "asn_parse_error") and v}
+    watched = ("wrong_digest", "unknown_user", "decrypt_error", "unsupported_level", "not_in_window", "bad_community", "asn_parse_error")
+    if mode == "v3-primed-reboot":
+        watched = tuple(k for k in watched if k != "not_in_window")
+        R.mon["notinwindow_reports_during_concurrency"] += agent.counters.get("not_in_window", 0)
+    bad = {k: v for k, v in agent.counters.items() if k in watched and v}
     if bad:
         R.violation(dict(case, order=order), "agent counters after the run: %r" % bad, None)
         return False
@@ -290,7 +308,7 @@ def explore(R, mode, ops, max_enum, sample_n, seed, clock="stepping"):
 
 def run(R):
     n = N_SETS[R.tier]
-    modes = ("v2c", "v2c", "v3-primed", "v2c", "v3-fresh", "v2c", "v3-two-clients", "v2c")
+    modes = ("v2c", "v2c", "v3-primed", "v2c", "v3-fresh", "v2c", "v3-two-clients", "v2c", "v3-two-engines", "v2c", "v3-primed-reboot", "v2c")
     fixed = [
         ("v2c", ("get", "set")),
         ("v2c", ("get", "walk")),
@@ -304,6 +322,10 @@ def run(R):
         ("v3-fresh", ("get", "get", "get")),
         ("v3-two-clients", ("get", "set")),
         ("v3-two-clients", ("getnext", "walk9")),
+        ("v3-two-engines", ("get", "set")),
+        ("v3-two-engines", ("get", "getnext", "set", "multiget")),
+        ("v3-primed-reboot", ("get", "set")),
+        ("v3-primed-reboot", ("get", "getnext", "set")),
     ]
     k = 0
     for mode, ops in fixed:
